@@ -174,6 +174,7 @@ def build(tier, seed):
                   z3.BoolVal(len(documented_rule(method, route)) == 1), kind='C',
                   info={'operation': '%s %s' % (method, route)})
     add_policy_lemmas(chk)
+    chk.script('deploy', script_deploy, ['placement/deploy.py:deploy'])
     chk.script('RequestContext.can', script_context_can,
                ['placement/context.py:RequestContext.can'])
     chk.script('PlacementHandler.__call__', script_handler_403,
@@ -435,6 +436,105 @@ def script_auth_middleware(cls_name):
             ex.oblige('C16.401.%s.no_credentials_only_root' % cls_name,
                       z3.Or(cred, is_root), 'C')
     return script
+
+
+# --------------------------------------------------------------------------
+# deploy(): the stacking order of the middleware
+class _Layer(Native):
+    def __init__(self, name, inner):
+        self.name = name
+        self.inner = inner
+
+    def chain(self):
+        out, cur = [], self
+        while isinstance(cur, _Layer):
+            out.append(cur.name)
+            cur = cur.inner
+        return out
+
+
+class _Factory(Native):
+    def __init__(self, name):
+        self.name = name
+
+    def truth(self, I):
+        return True
+
+    def call(self, I, args, kwargs):
+        return _Layer(self.name, args[0] if args else None)
+
+
+class _Conf(Native):
+    """oslo.config namespace for deploy(): every option deploy() reads is an
+    unconstrained value"""
+
+    def __init__(self, path=()):
+        self.path = path
+
+    def getattr(self, I, name):
+        p = self.path + (name,)
+        if len(p) == 1:
+            return I.ghost.setdefault(('dconf', p), _Conf(p))
+        key = ('dconfval', p)
+        if key not in I.ghost:
+            ty = 'str' if p == ('api', 'auth_strategy') else 'bool'
+            I.ghost[key] = I.fresh('conf.' + '.'.join(p), ty)
+        return I.ghost[key]
+
+    def contains(self, I, key):
+        return I.ghost.setdefault(('dconf.has', key),
+                                  I.fresh('conf.has.%s' % key, 'bool')).t
+
+    def kwargs_items(self):
+        return {}
+
+
+def script_deploy(ex):
+    """deploy(conf) for every configuration: requests reach the handler only
+    through authentication, then the request context, then the fault wrapper
+    and microversion parsing -- in that order from the outside in"""
+    import warnings
+    from placement import deploy, fault_wrap, requestlog, auth as pauth
+    from placement import handler as handler_mod
+    from microversion_parse import middleware as mp_middleware
+    from pyvc.interp import Interp
+    import oslo_middleware
+    reg = lib.base_registry()
+    c, k = reg['calls'], reg['classes']
+    k[handler_mod.PlacementHandler] = lambda I, a, kw: _Layer('handler', None)
+    k[mp_middleware.MicroversionMiddleware] = \
+        lambda I, a, kw: _Layer('microversion', a[0])
+    k[fault_wrap.FaultWrapper] = lambda I, a, kw: _Layer('fault', a[0])
+    k[pauth.PlacementKeystoneContext] = lambda I, a, kw: _Layer('context', a[0])
+    k[pauth.NoAuthMiddleware] = lambda I, a, kw: _Layer('auth', a[0])
+    k[requestlog.RequestLog] = lambda I, a, kw: _Layer('request_log', a[0])
+    k[oslo_middleware.HTTPProxyToWSGI] = lambda I, a, kw: _Layer('proxy', a[0])
+    c[id(pauth.filter_factory)] = lambda I, a, kw: _Factory('auth')
+    c[id(oslo_middleware.CORS.factory)] = lambda I, a, kw: _Factory('cors')
+    c[id(oslo_middleware.CORS.factory.__func__)] = \
+        lambda I, a, kw: _Factory('cors')
+    c[id(warnings.filterwarnings)] = lambda I, a, kw: None
+    if deploy.os_profiler_web is not None:
+        f = deploy.os_profiler_web.WsgiMiddleware.factory
+        c[id(getattr(f, '__func__', f))] = lambda I, a, kw: _Factory('profiler')
+        c[id(f)] = lambda I, a, kw: _Factory('profiler')
+    I = Interp(ex, reg)
+    conf = _Conf()
+    try:
+        app = I.call(deploy.deploy, [conf], {})
+    except PyRaise as pr:
+        raise Undecided('deploy() raised %s %r' % (pr.exc.cls.__name__,
+                                                   pr.exc.args))
+    if not isinstance(app, _Layer):
+        raise Undecided('deploy() returned %r' % (app,))
+    chain = app.chain()
+    pos = {n: i for i, n in enumerate(chain)}
+    need = ('auth', 'context', 'fault', 'microversion', 'handler')
+    ok = all(n in pos for n in need) and \
+        pos['auth'] < pos['context'] < pos['fault'] < pos['microversion'] \
+        < pos['handler'] and chain.count('auth') == 1
+    ex.oblige('C16.T.deploy.auth_then_context_then_handler', ok, 'T',
+              {'chain': chain})
 
 
 if __name__ == '__main__':
